@@ -126,8 +126,11 @@ class Check:
         cmd += extra or []
         cmd.append(module + ".tla")
         e = env()
-        if javaopts:
-            e["JAVA_TOOL_OPTIONS"] = javaopts
+        # TLC unpacks its modules into java.io.tmpdir on every start (one /tmp/tlc-* directory per run): keep that inside the
+        # run's own scratch directory, which is removed with it
+        jtmp = os.path.join(d, "jtmp")
+        os.makedirs(jtmp, exist_ok=True)
+        e["JAVA_TOOL_OPTIONS"] = ((javaopts + " ") if javaopts else "") + f"-Djava.io.tmpdir={jtmp}"
         t0 = time.time()
         p = subprocess.run(cmd, cwd=d, env=e, capture_output=True, text=True)
         r = TLCResult()
